@@ -426,13 +426,18 @@ def sequence_once(om, L, M, seq):
     app = om.Ombott({'max_body_size': L, 'max_memfile_size': M})
     app.route('/p', 'POST', lambda: app.request.body.read())
     for k, (n, framing) in enumerate(seq):
+        if framing == 'setup':
+            # the application is re-configured between two requests: the limits in force are the new ones
+            L = n
+            app.setup({'max_body_size': L, 'max_memfile_size': M})
+            continue
         payload = make_payload('raw', n)
         raw, envkw, _, _ = encode(payload, framing, 3)
         c = wsgi.call(app, wsgi.environ('POST', '/p', body=raw, ctype=CTYPE['raw'], **{k2: v for k2, v in envkw.items() if k2 != 'clen'},
                                         **({'clen': envkw['clen']} if envkw.get('clen') is not None else {})))
         want = 413 if n > L else 200
         if c.code != want or (want == 200 and c.body != payload):
-            return (f'request #{k + 1} of {seq!r} on one application (max_body_size={L}): a {n}-byte body ({framing}) answered {c.status}'
+            return (f'request #{k + 1} of {seq!r} on one application (max_body_size={L} at that point; (n, \'setup\') = app.setup() with max_body_size=n): a {n}-byte body ({framing}) answered {c.status}'
                     f'{"" if c.code != 200 else " with another body"}, expected {want}')
     return None
 
@@ -443,8 +448,8 @@ def work_sequence(spec):
     om = sut.load()
     c = res['counters']
     import itertools
-    items = [(n, f) for n in SEQ_SIZES for f in ('cl', 'chunked')]
-    for seq in itertools.product(items, repeat=2 if tier == 'quick' else 3):
+    items = [(n, f) for n in SEQ_SIZES for f in ('cl', 'chunked')] + [(2, 'setup'), (8, 'setup')]
+    for seq in itertools.product(items, repeat=3 if tier == 'quick' else 4):
         res['states'] += 1
         res['transitions'] += len(seq)
         res['execs'] += len(seq)
@@ -454,7 +459,7 @@ def work_sequence(spec):
         res['outcomes'].add('sequence ok' if bad is None else 'sequence BAD')
         if bad:
             core.add_violation(res, {'kind': 'sequence', 'L': L, 'M': M, 'seq': [list(x) for x in seq]}, bad, sig='sequence')
-    core.add_sample(res, {'kind': 'sequence', 'max_body_size': L, 'sizes': SEQ_SIZES, 'length': 2 if tier == 'quick' else 3})
+    core.add_sample(res, {'kind': 'sequence', 'max_body_size': L, 'sizes': SEQ_SIZES, 'length': 3 if tier == 'quick' else 4, 'reconfigurations': 'app.setup(max_body_size=2 / 8) as a step of the sequence'})
     return res
 
 
